@@ -1567,6 +1567,8 @@ def _minimise(ctx, bucket, budget):
 
     v = ctx.violations[bucket]
     check, best = v["check"], v["case"]
+    if check not in ("raw", "xfer"):
+        return  # directed families are small by construction
     improved = True
     while improved and budget > 0:
         improved = False
@@ -1588,6 +1590,110 @@ def _minimise(ctx, bucket, budget):
     ctx.label("minimised-buckets")
 
 
+# ---------------------------------------------------------------------------
+# senders that serve from the handle which generated their pack bitmaps
+#
+# dulwich consults reachability bitmaps only in the process that generated them (a long-running server that repacks itself):
+# MissingObjectFinder then takes "what the receiver has" from the bitmaps.  XOR-compressed entries (and chains of them) only
+# appear in packs of a few hundred objects with bitmapped tips on neighbouring commits, which the generated histories above
+# never reach, so this family builds that shape directly: a long line of commits, a run of branch tips on its last commits and
+# one or two further back; every branch in turn is what the receiver already has when it asks for everything.
+
+
+def exec_bitmap_sender(ctx, case, check="bitmap-sender"):
+    from dulwich import porcelain
+    from dulwich.objects import Blob, Commit, Tree
+    from dulwich.repo import Repo
+
+    n, tips, salt = case["n"], case["tips"], case["salt"]
+    root = ctx.scratch.new("bm")
+    spath = os.path.join(root, "sender")
+    os.makedirs(spath)
+    r = Repo.init_bare(spath)
+    commits = []
+    try:
+        files = {}
+        parent = None
+        for i in range(n):
+            b = Blob.from_string(b"file %d revision %d of history %d\n" % (i % 8, i, salt))
+            files[b"f%d.txt" % (i % 8)] = b.id
+            t = Tree()
+            for fn, sha in files.items():
+                t.add(fn, 0o100644, sha)
+            c = Commit()
+            c.tree = t.id
+            c.parents = [parent] if parent else []
+            c.author = c.committer = b"B M <bm@example.com>"
+            c.author_time = c.commit_time = 1_200_000_000 + 60 * i
+            c.author_timezone = c.commit_timezone = 0
+            c.message = b"commit %d salt %d\n" % (i, salt)
+            for o in (b, t, c):
+                r.object_store.add_object(o)
+            commits.append(c.id)
+            parent = c.id
+        refs = {b"refs/heads/t%03d" % k: commits[k] for k in tips}
+        for name, v in refs.items():
+            r.refs[name] = v
+        r.refs.set_symbolic_ref(b"HEAD", max(refs))
+        porcelain.repack(r, write_bitmaps=True)
+        if not any(f.endswith(".bitmap") for f in os.listdir(os.path.join(spath, "objects", "pack"))):
+            raise HarnessError("porcelain.repack(write_bitmaps=True) wrote no .bitmap file")
+        rc, out, err = _git(["rev-list", "--objects", "--all"], cwd=spath)
+        if rc:
+            raise HarnessError(f"git rev-list on the sender failed: {err!r}")
+        want_all = {l.split(b" ")[0] for l in out.split(b"\n") if l}
+        if len(want_all) != 3 * n:
+            raise HarnessError(f"sender holds {len(want_all)} objects, expected {3 * n}")
+        for hi, have in enumerate(sorted(refs)):
+            rpath = os.path.join(root, "recv%d" % hi)
+            os.makedirs(rpath)
+            outcome = "ok"
+            with Repo.init_bare(rpath) as recv:
+                try:
+                    # what the receiver already has: one branch (the sender's answer to this request is judged too)
+                    got_refs = r.fetch(recv, determine_wants=lambda refs_, depth=None, h=refs[have]: [h])
+                    recv.refs[have] = refs[have]
+                    rc, out, err = _git(["rev-list", "--objects", "--all"], cwd=rpath)
+                    pre = {l.split(b" ")[0] for l in out.split(b"\n") if l} if rc == 0 else None
+                    k = tips[sorted(refs).index(have)]
+                    if pre is None or len(pre) != 3 * (k + 1):
+                        ctx.fail("C05:bitmap-sender:first-fetch-incomplete", f"fetch of {have!r} (commit {k} of {n}) into an empty receiver reported success but git finds "
+                                 f"{'an unreadable history' if pre is None else '%d of %d objects' % (len(pre), 3 * (k + 1))}: {err[:160]!r}", check, case)
+                        continue
+                    r.fetch(recv)  # everything is wanted; the sender is the handle that generated the bitmaps
+                    for name, v in refs.items():
+                        recv.refs[name] = v
+                except Violation:
+                    raise
+                except Exception as e:  # a failed transfer is an outcome, not a violation of C05
+                    outcome = "failed:" + type(e).__name__
+            if outcome == "ok":
+                rc, out, err = _git(["rev-list", "--objects", "--all"], cwd=rpath)
+                got = {l.split(b" ")[0] for l in out.split(b"\n") if l} if rc == 0 else set()
+                if rc or got != want_all:
+                    kinds = "+".join(sorted({("commit" if m in commits else "tree/blob") for m in want_all - got})) or "unreadable"
+                    ctx.fail(f"C05:bitmap-sender:missing-objects:{kinds}",
+                             f"fetch of every branch from the handle that generated the pack bitmaps into a receiver that had {have!r} (commit {k} of {n}) "
+                             f"reported success, but {len(want_all - got)} of {len(want_all)} objects are missing (git rev-list rc {rc}: {err[:160]!r}); tips {tips}", check, case)
+            ctx.case(h64("bm", n, tuple(tips), salt, have), nontrivial=outcome == "ok" and k + 1 < n,
+                     labels=("bitmap-sender", "bitmap-sender:" + outcome.split(":")[0], "objects:%d+" % (100 * (3 * n // 100))),
+                     sample=dict(n=n, tips=tips, have=have.decode(), outcome=outcome) if hi == 1 else None)
+            shutil.rmtree(rpath, ignore_errors=True)
+    finally:
+        r.close()
+        shutil.rmtree(root, ignore_errors=True)
+
+
+def _part_bitmap_sender(ctx, k):
+    import random
+
+    rnd = random.Random(h64("bm", ctx.seed, k))
+    n = rnd.choice([150, 190, 230, 260])
+    run = rnd.choice([8, 10, 12])  # tips on the last `run` commits, one after the other
+    far = sorted(rnd.sample(range(5, n - 20), rnd.choice([1, 2])))
+    exec_bitmap_sender(ctx, dict(n=n, tips=far + list(range(n - run, n)), salt=h64("s", ctx.seed, k) % 1000))
+
+
 def run(ctx):
     global _T0
     _T0 = time.monotonic()
@@ -1599,6 +1705,7 @@ def run(ctx):
     n_raw = ctx.scale(50, 800)
     n_xfer = ctx.scale(100, 1800)
     ctx.parallel(_part, [(n_xfer, n_raw)] * 16)
+    ctx.parallel(_part_bitmap_sender, list(range(ctx.scale(4, 64))))
     if ctx.violations:
         try:
             for n, bucket in enumerate(sorted(ctx.violations)):
@@ -1615,6 +1722,8 @@ def replay(ctx, check, case):
             exec_raw(ctx, case)
         elif check == "xfer":
             exec_xfer(ctx, case)
+        elif check == "bitmap-sender":
+            exec_bitmap_sender(ctx, case)
         else:
             raise HarnessError(f"unknown check {check!r}")
     finally:
